@@ -86,7 +86,8 @@ class C15(Check):
             "must return the pristine skeleton (dump-equal) and the multiset of all dictionaries with every outer "
             "wrapper before the wrappers inside its source; remove_empty_metadata must return the skeleton with "
             "exactly the non-empty wrappers in place and leave the heap graph of its argument (node identity, "
-            "sharing, fields, annotations) unchanged. Non-trivial = placement with >= 1 wrapper")
+            "sharing, fields, annotations) unchanged; what either function returned for one query is unchanged after the "
+            "call for the next query of the enumeration (results belong to the caller). Non-trivial = placement with >= 1 wrapper")
     assumptions = ["dictionaries are small literal dicts; order among unrelated wrappers is not prescribed"]
 
     def spaces(self, tier):
@@ -110,6 +111,7 @@ class C15(Check):
         sub = {n._pos: subtree_positions(n) for n in nodes}
         want_plain = ast.dump(ast.parse(skel, mode="eval").body)
         npos = len(nodes)
+        held = None  # what the previous calls returned, still held by the caller
         for k in range(0, K + 1):
             for positions in itertools.combinations_with_replacement(range(npos), k):
                 for empties in itertools.product((False, True, "same"), repeat=k):
@@ -157,6 +159,14 @@ class C15(Check):
                     if explore.heap_key([a], [None], lambda v: "?") != before:
                         res["viol"].append({"kind": "remove-empty-mutated-its-argument", "canon": canon,
                                             "msg": ast.unparse(a)[:200]})
+                    # ---- results handed out earlier are the caller's: later calls must not change them
+                    if held is not None:
+                        h_canon, h_stripped, h_mds, h_cleaned, h_snap = held
+                        now = (ast.dump(h_stripped), repr(h_mds), ast.dump(h_cleaned))
+                        if now != h_snap:
+                            res["viol"].append({"kind": "earlier-result-changed-by-later-call", "canon": f"{h_canon} ;then; {canon}",
+                                                "msg": f"was {h_snap[1][:100]} / now {now[1][:100]}"})
+                    held = (canon, stripped, mds, cleaned, (ast.dump(stripped), repr(mds), ast.dump(cleaned)))
                     res["oc"].append(f"k={k}:empties={sum(1 for e in empties if e is True)}")
         res["oc"] = sorted(set(res["oc"])) if not res["viol"] else res["oc"][:3]
         res["viol"] = res["viol"][:30]
